@@ -251,7 +251,7 @@ THEOREMS = ["T_Affine: Point_{aU+b}(a u + b) = Point_U(u) and derivatives scale 
 
 
 def run(ctx):
-    res = core.run_tlc("MC_C17", "MC_C17_%s.cfg" % ctx.tier, timeout=1800)
+    res = core.run_model(ctx, "MC_C17", 1800, thorough_seeds=(2, 3))
     core.tlc_must_pass(res, "MC_C17")
     ctx.add_tlc(res, "queries x affine knot ranges")
     rp = core.run_tlc("Pool", "Pool.cfg", timeout=600, workers=8)
